@@ -1126,34 +1126,7 @@ class BooleanExpression(Expression):
         self.expression = expression
 
     def __str__(self) -> str:
-        def _str(expression: Expression, parent_precedence: int) -> str:
-            if isinstance(expression, LogicalAndExpression):
-                precedence = PRECEDENCE_LOGICAL_AND
-                op = "and"
-                left = _str(expression.left, precedence)
-                right = _str(expression.right, precedence)
-            elif isinstance(expression, LogicalOrExpression):
-                precedence = PRECEDENCE_LOGICAL_OR
-                op = "or"
-                left = _str(expression.left, precedence)
-                right = _str(expression.right, precedence)
-            elif isinstance(expression, LogicalNotExpression):
-                # The parser reads everything that follows `not` as its operand,
-                # so a nested `not` must be grouped to survive a round trip.
-                operand_str = _str(expression.expression, PRECEDENCE_PREFIX)
-                expr = f"not {operand_str}"
-                if parent_precedence > 0:
-                    return f"({expr})"
-                return expr
-            else:
-                return str(expression)
-
-            expr = f"{left} {op} {right}"
-            if precedence < parent_precedence:
-                return f"({expr})"
-            return expr
-
-        return _str(self.expression, 0)
+        return _group(self.expression, 0)
 
     def evaluate(self, context: RenderContext) -> object:
         return is_truthy(self.expression.evaluate(context))
@@ -1216,6 +1189,30 @@ BINARY_OPERATORS = frozenset(
         TokenType.OR_WORD,
     ]
 )
+
+
+def _group(expression: Expression, parent_precedence: int) -> str:
+    """Return _expression_ as a string, with parentheses where the parser needs them.
+
+    The right hand side of an infix expression extends over operators that bind as
+    tightly or tighter, and the operand of `not` over everything that follows.
+    """
+    if isinstance(expression, LogicalNotExpression):
+        expr = f"not {_group(expression.expression, PRECEDENCE_PREFIX)}"
+        return f"({expr})" if parent_precedence > 0 else expr
+
+    for cls, op, precedence in _INFIX:
+        if isinstance(expression, cls):
+            break
+    else:
+        return str(expression)
+
+    # Logical operators give the same result however they are nested.
+    left_precedence = precedence if op in ("and", "or") else precedence + 1
+    left = _group(expression.left, left_precedence)  # type: ignore
+    right = _group(expression.right, precedence)  # type: ignore
+    expr = f"{left} {op} {right}"
+    return f"({expr})" if precedence < parent_precedence else expr
 
 
 def parse_boolean_primitive(  # noqa: PLR0912
@@ -1372,7 +1369,7 @@ class LogicalNotExpression(Expression):
         self.expression = expression
 
     def __str__(self) -> str:
-        return f"not {self.expression}"
+        return _group(self, 0)
 
     def evaluate(self, context: RenderContext) -> object:
         return not is_truthy(self.expression.evaluate(context))
@@ -1398,7 +1395,7 @@ class LogicalAndExpression(Expression):
         self.right = right
 
     def __str__(self) -> str:
-        return f"{self.left} and {self.right}"
+        return _group(self, 0)
 
     def evaluate(self, context: RenderContext) -> object:
         return is_truthy(self.left.evaluate(context)) and is_truthy(
@@ -1423,7 +1420,7 @@ class LogicalOrExpression(Expression):
         self.right = right
 
     def __str__(self) -> str:
-        return f"{self.left} or {self.right}"
+        return _group(self, 0)
 
     def evaluate(self, context: RenderContext) -> object:
         return is_truthy(self.left.evaluate(context)) or is_truthy(
@@ -1448,7 +1445,7 @@ class EqExpression(Expression):
         self.right = right
 
     def __str__(self) -> str:
-        return f"{self.left} == {self.right}"
+        return _group(self, 0)
 
     def evaluate(self, context: RenderContext) -> object:
         return _eq(self.left.evaluate(context), self.right.evaluate(context))
@@ -1472,7 +1469,7 @@ class NeExpression(Expression):
         self.right = right
 
     def __str__(self) -> str:
-        return f"{self.left} != {self.right}"
+        return _group(self, 0)
 
     def evaluate(self, context: RenderContext) -> object:
         return not _eq(self.left.evaluate(context), self.right.evaluate(context))
@@ -1496,7 +1493,7 @@ class LeExpression(Expression):
         self.right = right
 
     def __str__(self) -> str:
-        return f"{self.left} <= {self.right}"
+        return _group(self, 0)
 
     def evaluate(self, context: RenderContext) -> object:
         left = self.left.evaluate(context)
@@ -1521,7 +1518,7 @@ class GeExpression(Expression):
         self.right = right
 
     def __str__(self) -> str:
-        return f"{self.left} >= {self.right}"
+        return _group(self, 0)
 
     def evaluate(self, context: RenderContext) -> object:
         left = self.left.evaluate(context)
@@ -1546,7 +1543,7 @@ class LtExpression(Expression):
         self.right = right
 
     def __str__(self) -> str:
-        return f"{self.left} < {self.right}"
+        return _group(self, 0)
 
     def evaluate(self, context: RenderContext) -> object:
         return _lt(
@@ -1573,7 +1570,7 @@ class GtExpression(Expression):
         self.right = right
 
     def __str__(self) -> str:
-        return f"{self.left} > {self.right}"
+        return _group(self, 0)
 
     def evaluate(self, context: RenderContext) -> object:
         return _lt(
@@ -1600,7 +1597,7 @@ class ContainsExpression(Expression):
         self.right = right
 
     def __str__(self) -> str:
-        return f"{self.left} contains {self.right}"
+        return _group(self, 0)
 
     def evaluate(self, context: RenderContext) -> object:
         return _contains(
@@ -1627,7 +1624,7 @@ class InExpression(Expression):
         self.right = right
 
     def __str__(self) -> str:
-        return f"{self.left} in {self.right}"
+        return _group(self, 0)
 
     def evaluate(self, context: RenderContext) -> object:
         return _contains(
@@ -1643,6 +1640,20 @@ class InExpression(Expression):
 
     def children(self) -> list[Expression]:
         return [self.left, self.right]
+
+
+_INFIX: tuple[tuple[type[Expression], str, int], ...] = (
+    (LogicalAndExpression, "and", PRECEDENCE_LOGICAL_AND),
+    (LogicalOrExpression, "or", PRECEDENCE_LOGICAL_OR),
+    (EqExpression, "==", PRECEDENCE_RELATIONAL),
+    (NeExpression, "!=", PRECEDENCE_RELATIONAL),
+    (LeExpression, "<=", PRECEDENCE_RELATIONAL),
+    (GeExpression, ">=", PRECEDENCE_RELATIONAL),
+    (LtExpression, "<", PRECEDENCE_RELATIONAL),
+    (GtExpression, ">", PRECEDENCE_RELATIONAL),
+    (ContainsExpression, "contains", PRECEDENCE_MEMBERSHIP),
+    (InExpression, "in", PRECEDENCE_MEMBERSHIP),
+)
 
 
 class LoopExpression(Expression):
